@@ -86,6 +86,16 @@ CHECKS.update({
          "named deviation sinclair2down are reported as the known finding D11."),
    note="Trusted: TLC, the single-step IN A,(C) driver. D11 is open (pinned test hash enshrines it); any other mismatch is a VIOLATION."),
 })
+CHECKS.update({
+ "C07": dict(
+   category="model_checking", design_ref="4 (C07)", technique="TLC exhaustive constant-level decode check + TLC validation of complete 65536-port sweeps and floating-bus reads of the real emulator",
+   text=("Ports.tla derives from the property's masks the set of devices each port selects; MC_Ports checks for all 65536 ports x 16 configurations that the "
+         "controller's if/else decode chains reach exactly that device wherever the set is a singleton (or none). On the real emulator every port is read "
+         "(IN A,(C)) with distinguishable device states and written (OUT) with probes of border, paging latch, AY select/data and the extender log, per "
+         "configuration; PortsTrace judges both tables port by port. Floating-bus reads at chosen beam positions must be 0xFF outside the ULA's fetch "
+         "groups and otherwise one of the bytes of the displayed bank being fetched."),
+   note="Trusted: TLC, probes through canonical ports. Multi-device ports are not judged. Floating-bus window is generous (+-8 T), so only the set of allowed bytes is decided."),
+})
 NOT_YET = {}
 
 HOOK_COMMITS = ["71990aa"]
